@@ -34,7 +34,7 @@ def run(prop, tier, seed, work, ev):
     ev.rule = ("cases: for every string of 0..%d characters over {a ' ` \" \\ space newline e-acute U+1F600 /}: its raw-string spelling "
                "(when it has one), the JSON literals holding it / [it, null] / {it: it}, three spellings of the quoted identifier "
                "(minimal, all \\uXXXX with surrogate pairs, with \\/) against an object with near-miss keys, and five malformed forms; "
-               "unquoted identifiers; seeded random strings over all planes up to %d characters. Non-trivial: a good spelling of >= 4 characters."
+               "runs of 0..7 backslashes before a closing / escaped delimiter in all three forms (judged by the lexer model); unquoted identifiers, also followed by characters of other planes whose low byte is an ASCII letter / digit; the same text between different delimiters in one expression; seeded random strings over all planes up to %d characters. Non-trivial: a good spelling of >= 4 characters."
                % (t["n"], t["maxlen"]))
     ev.trusted.append("LexVal.tla spelling rules as the reading of C09; JText.tla JSON printer")
     rejects = []
@@ -46,6 +46,8 @@ def run(prop, tier, seed, work, ev):
     c = work.path("rand.cases")
     gen(work, "spell", c, inp=params)
     rejects += run_and_judge("random strings over all planes", c, work, ev, drv)
+    import eng_eval
+    rejects += eng_eval.pool_families(["twins"], work, ev, drv)
     return rejects
 
 
